@@ -630,7 +630,9 @@ func (m *Manager) acquireTasks(envId uid.ID, taskDescriptors Descriptors) (err e
 		}
 	}
 
-	m.deployMu.Unlock()
+	if len(tasksToRun) > 0 { // locked above only when something had to be deployed
+		m.deployMu.Unlock()
+	}
 
 	if !deploymentSuccess {
 		var deployedTaskIds []string
